@@ -12,6 +12,7 @@
 package main
 
 import (
+	"hash/fnv"
 	"bytes"
 	"encoding/json"
 	"fmt"
@@ -186,6 +187,9 @@ func shapeLean(s string) string {
 	return ".other"
 }
 
+// the decision functions whose shape is a regenerated fact (skel_<name>)
+var skeletonFuncs = []string{"ServeHTTP", "handleCallback", "processAuthorizedRequest", "isUserAuthenticated", "refreshToken", "handleLogout", "defaultInitiateAuthentication", "handleExpiredToken", "sendErrorResponse"}
+
 func main() {
 	if len(os.Args) != 5 {
 		fmt.Fprintln(os.Stderr, "usage: facts <repo> <out.lean> <out.json> <dict.json>")
@@ -241,6 +245,9 @@ func main() {
 	declare("poolPutOnlyBeforeNilReturn", "Bool", "false")
 	declare("nestedLockCalls", "List String", `["?"]`)   // Type.Method->Callee: a call, made while a lock of the receiver is held, to a method of the same receiver that acquires one
 	declare("housekeepingCalls", "List String", "[]") // the caches whose Cleanup the one-minute ticker of startTokenCleanup runs
+	for _, fnName := range skeletonFuncs {
+		declare("skel_"+fnName, "List String", `["?"]`)
+	}
 	declare("randomFromCryptoRand", "Bool", "false")
 	declare("nonceBytes", "Nat", "0")
 	declare("verifierBytes", "Nat", "0")
@@ -867,6 +874,146 @@ func main() {
 		if nMethods > 0 {
 			set("nestedLockCalls", leanStrList(nested), nil, fmt.Sprintf("%d methods acquire a lock of their receiver", nMethods))
 			facts["nestedLockCalls"].Pos = "*.go"
+		}
+	}
+	// ---- the decision functions of the handler: their steps in order — guards (normalised text), the calls on the instance, the
+	// session and net/http behind them (with literal arguments and status codes), and where they return.  The Lean model follows
+	// these shapes statement by statement; a reordered, added or dropped step or a changed guard is a different program shape.
+	{
+		norm := func(n ast.Node) string { return strings.Join(strings.Fields(src(n)), " ") }
+		root := func(e ast.Expr) string {
+			for {
+				switch x := e.(type) {
+				case *ast.SelectorExpr:
+					e = x.X
+				case *ast.CallExpr:
+					e = x.Fun
+				case *ast.Ident:
+					return x.Name
+				default:
+					return ""
+				}
+			}
+		}
+		callText := func(c *ast.CallExpr) (string, bool) {
+			sel, ok := c.Fun.(*ast.SelectorExpr)
+			if !ok {
+				if id, ok := c.Fun.(*ast.Ident); ok && (id.Name == "isLocalRedirectTarget" || id.Name == "buildFullURL") {
+					return id.Name, true
+				}
+				return "", false
+			}
+			r := root(sel.X)
+			if r != "t" && r != "session" && r != "http" && r != "rw" && r != "html" && r != "json" && r != "fmt" && !(r == "req" && strings.Contains(src(sel.X), "Header")) {
+				return "", false
+			}
+			if strings.Contains(src(sel.X), "logger") {
+				return "", false
+			}
+			var args []string
+			for _, a := range c.Args {
+				switch x := a.(type) {
+				case *ast.BasicLit:
+					v := x.Value
+					if len(v) > 60 { // long literals (page templates): a prefix and a checksum of the whole text
+						h := fnv.New32a()
+						h.Write([]byte(v))
+						v = fmt.Sprintf("%s…#%08x", v[:40], h.Sum32())
+					}
+					args = append(args, v)
+				case *ast.SelectorExpr:
+					if root(x) == "http" {
+						args = append(args, x.Sel.Name)
+					} else {
+						args = append(args, "_")
+					}
+				case *ast.Ident:
+					if x.Name == "true" || x.Name == "false" || x.Name == "nil" {
+						args = append(args, x.Name)
+					} else {
+						args = append(args, "_")
+					}
+				default:
+					args = append(args, "_")
+				}
+			}
+			return sel.Sel.Name + "(" + strings.Join(args, ",") + ")", true
+		}
+		callsIn := func(n ast.Node) []string {
+			var out []string
+			if n == nil {
+				return out
+			}
+			ast.Inspect(n, func(x ast.Node) bool {
+				switch y := x.(type) {
+				case *ast.FuncLit, *ast.BlockStmt:
+					return false
+				case *ast.CallExpr:
+					if t, ok := callText(y); ok {
+						out = append(out, t)
+					}
+				}
+				return true
+			})
+			return out
+		}
+		var skel func(stmts []ast.Stmt) []string
+		returns := func(l []ast.Stmt) string { return "" }
+		skel = func(stmts []ast.Stmt) []string {
+			var out []string
+			for _, st := range stmts {
+				switch x := st.(type) {
+				case *ast.SelectStmt:
+					var arms []string
+					for _, cc := range x.Body.List {
+						if c, ok := cc.(*ast.CommClause); ok {
+							arm := "default"
+							if c.Comm != nil {
+								arm = norm(c.Comm)
+							}
+							arms = append(arms, arm+"{"+strings.Join(skel(c.Body), ";")+returns(c.Body)+"}")
+						}
+					}
+					out = append(out, "select["+strings.Join(arms, " | ")+"]")
+				case *ast.IfStmt:
+					var pre []string
+					if x.Init != nil {
+						pre = callsIn(x.Init)
+					}
+					body := skel(x.Body.List)
+					rets := returns(x.Body.List)
+					els := ""
+					switch e := x.Else.(type) {
+					case *ast.BlockStmt:
+						if in, r := skel(e.List), returns(e.List); len(in) > 0 || r != "" {
+							els = " else{" + strings.Join(in, ";") + r + "}"
+						}
+					case *ast.IfStmt:
+						if in := skel([]ast.Stmt{e}); len(in) > 0 {
+							els = " else " + strings.Join(in, ";")
+						}
+					}
+					if len(body) == 0 && rets == "" && els == "" && len(pre) == 0 && len(callsIn(x.Cond)) == 0 {
+						continue // neither a call nor an exit behind this guard (logging, local bookkeeping)
+					}
+					out = append(out, strings.Join(append(pre, "if "+norm(x.Cond)+"{"+strings.Join(body, ";")+rets+"}"+els), ";"))
+				case *ast.ForStmt:
+					out = append(out, "for{"+strings.Join(skel(x.Body.List), ";")+returns(x.Body.List)+"}")
+				case *ast.RangeStmt:
+					out = append(out, "range "+norm(x.X)+"{"+strings.Join(skel(x.Body.List), ";")+returns(x.Body.List)+"}")
+				case *ast.ReturnStmt:
+					out = append(out, norm(x))
+				case *ast.DeferStmt:
+				default:
+					out = append(out, callsIn(st)...)
+				}
+			}
+			return out
+		}
+		for _, fnName := range skeletonFuncs {
+			if f, ok := funcs["TraefikOidc."+fnName]; ok && f.decl.Body != nil {
+				set("skel_"+fnName, leanStrList(skel(f.decl.Body.List)), f.decl, "")
+			}
 		}
 	}
 	// ---- the one-minute housekeeping ticker (the harness hook runs the same calls next to live traffic)
